@@ -239,7 +239,7 @@ Proof. vm_compute. repeat split; reflexivity. Qed.
       size < 2^64 (epoch id, blocks-from-last and key "bytes" are arbitrary).
     Every hypothesis is necessary ([monitor_on_model_needs_*]); none of the
     counterexample inputs is accepted by the harness. *)
-From BBS Require Import Common.Sx Index.MonSilentKlm Index.MonSilentCodec Run.R06 Run.R06Proofs.
+From BBS Require Import Common.Sx Common.SxFactsMA Index.MonSilentKlm Index.MonSilentCodec Run.R06 Run.R06Proofs.
 
 Theorem monitor_silent_on_model : forall inp, wf06 inp -> mon06 inp (run06 inp) = nil.
 Proof. exact mon06_silent. Qed.
@@ -303,3 +303,9 @@ Proof. exact wf06_hist_example. Qed.
 Example wf06_nonvacuous_codec :
   wf06 (L [A 1; A (2 ^ 40); A (2 ^ 20); L (A 300 :: List.repeat (A 7) 31); A 1; A 2; A 3; A 7; A 7; A 66]%Z).
 Proof. exact wf06_codec_example. Qed.
+
+(** For the judge the driver runs: "agree" implies "no violation". *)
+Theorem judge_agree_implies_no_violation : forall inp obs,
+  wf06 inp -> judged_agree (judge06 inp obs) = true -> judged_violates (judge06 inp obs) = false.
+Proof. exact judge06_agree_not_violates. Qed.
+Print Assumptions judge_agree_implies_no_violation.
